@@ -371,6 +371,15 @@ class Interp:
                 raise NoValue("itertools over an abstract iterable")
             return list(q)
 
+        def lazy(q):
+            """An iterator over q that may be unbounded (count(), a generator expression over it): for consumers that stop
+            with their other, finite argument."""
+            if isinstance(q, Obj) and q.kind == "itertools.count":
+                return self._count_iter(q)
+            if isinstance(q, Obj) and q.kind == "lazy-iter":
+                return q.attrs["iter"]
+            return iter(seq(q))
+
         def repeat(x, times=None):
             if times is None:
                 raise NoValue("itertools.repeat without a count")
@@ -408,10 +417,10 @@ class Interp:
             "islice": PyFunc(lambda q, *a: list(_it.islice(q.attrs["iter"] if isinstance(q, Obj) and q.kind == "lazy-iter" else
                                                            self._count_iter(q) if isinstance(q, Obj) and q.kind == "itertools.count" else
                                                            _Consuming(q) if isinstance(q, GenList) else seq(q), *a)), "islice", True),
-            "takewhile": PyFunc(lambda f, q: list(_it.takewhile(lambda x: self.truth(self.call(f, [x], {})), seq(q))), "takewhile", True),
+            "takewhile": PyFunc(lambda f, q: list(_it.takewhile(lambda x: self.truth(self.call(f, [x], {})), lazy(q))), "takewhile", True),
             "dropwhile": PyFunc(lambda f, q: list(_it.dropwhile(lambda x: self.truth(self.call(f, [x], {})), seq(q))), "dropwhile", True),
             "filterfalse": PyFunc(lambda f, q: [x for x in seq(q) if not self.truth(self.call(f, [x], {}) if f is not None else x)], "filterfalse", True),
-            "compress": PyFunc(lambda q, sel: [x for x, s_ in zip(seq(q), seq(sel)) if self.truth(s_)], "compress", True),
+            "compress": PyFunc(lambda q, sel: [x for x, s_ in zip(lazy(q), seq(sel)) if self.truth(s_)], "compress", True),
             "count": PyFunc(lambda start=0, step=1: Obj("itertools.count", {"next": start, "step": step, "fmt": f"count({start})"}), "count", True),
             "pairwise": PyFunc(lambda q: list(zip(seq(q), seq(q)[1:])), "pairwise", True),
         }
